@@ -22,7 +22,9 @@ EXPLANATION = (
     'target is a placeholder token. The real Solver(argv) parses the file with the shadowed int, so every numeric Model field is a z3 term; z3 proves it is '
     'identical to the term the file denotes (so column routing and section boundaries are verified for all values at once). Structure is compared exactly: '
     'agent counts, pairs order with dense ranks, project->lecturer, lecturer ranks, project_lists / lecturer_lists / rank_lists, the 2-agent embedding (own '
-    'lecturer, same lower/upper quota, target = upper), no lecturer rank and zero lecturer cost without -twopl, and the "Model instance information" text.')
+    'lecturer, same lower/upper quota, target = upper), no lecturer rank and zero lecturer cost without -twopl, and the "Model instance information" text. '
+    'A file with second-side lists is read three times in one process without being rewritten (given flags, other -twopl setting, given flags again) '
+    'and every read must give the instance the file denotes under its own flags.')
 ASSUMPTIONS = ['inter-token whitespace variants: single/double space, tab, space before colon; one token per number', 'lecturer lists contain at least the students ranking the lecturer (optionally all students)']
 LEVEL_TEXT = ('Path-exhaustive symbolic execution of the real reader over an enumerated family of file structures with symbolic numerics; each Model field is '
               'proved (z3) equal to the denoted term. The solver\'s role is term identity and path feasibility; the strength is structural exhaustiveness within the bound.')
